@@ -316,6 +316,27 @@ pub fn get_jaccard_index_estimate<F: PartialEq + num::Zero + std::fmt::Debug>(
 
 //===========================================================================================
 
+#[cfg(probminhash_verif)]
+impl<I, T, H: Hasher + Default> SuperMinHash2<I, T, H>
+where
+    I: Integer
+        + Unsigned
+        + ToPrimitive
+        + FromPrimitive
+        + Bounded
+        + Copy
+        + Clone
+        + Send
+        + Sync
+        + std::fmt::Debug,
+    T: Hash,
+{
+    /// verification hook : read-only copy of (l, values, histogram b, a_upper)
+    pub fn verif_state(&self) -> (Vec<usize>, Vec<usize>, Vec<usize>, usize) {
+        (self.l.clone(), self.values.clone(), self.b.clone(), self.a_upper)
+    }
+}
+
 #[cfg(test)]
 mod tests {
     use super::*;
